@@ -299,3 +299,63 @@ package state
 //@   loop 0 invariant forall(o bitcoin.Hash32, has(memPool.inputs, o) ==> forall(c, ite(old(has(memPool.inputs, o)), old(len(memPool.inputs[o])), 0), len(memPool.inputs[o]), memPool.inputs[o][c] == id))
 //@   loop 0 invariant forall(o bitcoin.Hash32, has(memPool.inputs, o) ==> arr(memPool.inputs[o]) != arr(conflicts))
 //@   loop 0 invariant InvTx(memPool) && InvIn(memPool) && !has(memPool.requests, id) && reqSameExcept(memPool, id)
+
+//@ spec ohOf(m, t, k) = OutpointHash(m.txs[t].outPoints[k])
+//@ spec txsSameExcept(m, id) = forall(t bitcoin.Hash32, t != id ==> has(m.txs, t) == old(has(m.txs, t)) && m.txs[t] == old(m.txs[t]))
+//@ spec registeredFrom(m, t, lo) = forall(k, lo, len(m.txs[t].outPoints), listed(m, ohOf(m, t, k), t))
+//@ spec distinctOps(m, t) = forall(a, 0, len(m.txs[t].outPoints), forall(b, 0, len(m.txs[t].outPoints), a != b ==> ohOf(m, t, a) != ohOf(m, t, b)))
+
+//@ spec Distinct(m) = forall(t bitcoin.Hash32, has(m.txs, t) ==> distinctOps(m, t))
+//@ spec Reg(m) = forall(t bitcoin.Hash32, has(m.txs, t) ==> registeredFrom(m, t, 0))
+
+//@ func (*MemPool).removeTransaction
+//@   serves C05 C14
+//@   requires held(memPool.mutex) && InvTx(memPool) && InvIn(memPool) && Distinct(memPool)
+//@   requires {reg} Reg(memPool)
+//@   ensures distinct: Distinct(memPool)
+//@   ensures {reg} reg: Reg(memPool)
+//@   ensures gone: !has(memPool.txs, hash) && !has(memPool.requests, hash) && reqSameExcept(memPool, hash) && txsSameExcept(memPool, hash)
+//@   ensures result: result == old(body(memPool, hash))
+//@   ensures absent: !old(has(memPool.txs, hash)) ==> forall(o bitcoin.Hash32, inputSame(memPool, o))
+//@   ensures untouched: old(has(memPool.txs, hash)) ==> forall(o bitcoin.Hash32, forall(k, 0, old(len(memPool.txs[hash].outPoints)), o != OutpointHash(old(memPool.txs[hash].outPoints[k]))) ==> inputSame(memPool, o))
+//@   ensures {nf} nothing_new: forall(o bitcoin.Hash32, has(memPool.inputs, o) ==> forall(c, 0, len(memPool.inputs[o]), listedOld(memPool, o, memPool.inputs[o][c])))
+//@   ensures {reg} others_stay: forall(o bitcoin.Hash32, old(has(memPool.inputs, o)) ==> forall(j, 0, old(len(memPool.inputs[o])), old(memPool.inputs[o][j]) != hash ==> listed(memPool, o, old(memPool.inputs[o][j]))))
+//@   ensures inv: InvTx(memPool) && InvIn(memPool) && held(memPool.mutex)
+//@   ensures frame: forall(r *memPoolTx, same(r.outPoints, r.trusted, r.time)) && oldrows(memPool.txs[hash].outPoints) || !old(has(memPool.txs, hash))
+//@   loop 0 invariant hadOutpoints == (_i0 > 0)
+//@   loop 0 invariant 0 <= _i0 && _i0 <= len(tx.outPoints) && tx != nil && has(memPool.txs, hash) && memPool.txs[hash] == tx && old(has(memPool.txs, hash)) && old(memPool.txs[hash]) == tx
+//@   loop 0 invariant same(memPool.inputs, memPool.txs, memPool.requests, tx.outPoints) && oldrows(tx.outPoints) && forall(r *memPoolTx, same(r.outPoints, r.trusted, r.time))
+//@   loop 0 invariant !has(memPool.requests, hash) && reqSameExcept(memPool, hash) && txsSameExcept(memPool, hash)
+//@   loop 0 invariant InvTx(memPool) && InvIn(memPool) && held(memPool.mutex) && Distinct(memPool)
+//@   loop 0 invariant forall(o bitcoin.Hash32, forall(k, 0, _i0, o != ohOf(memPool, hash, k)) ==> inputSame(memPool, o))
+//@   loop 0 invariant {nf} forall(o bitcoin.Hash32, has(memPool.inputs, o) ==> forall(c, 0, len(memPool.inputs[o]), listedOld(memPool, o, memPool.inputs[o][c])))
+//@   loop 0 invariant {reg} forall(o bitcoin.Hash32, old(has(memPool.inputs, o)) ==> forall(j, 0, old(len(memPool.inputs[o])), old(memPool.inputs[o][j]) != hash ==> listed(memPool, o, old(memPool.inputs[o][j]))))
+//@   loop 0 invariant {reg} registeredFrom(memPool, hash, _i0)
+//@   loop 0 invariant {reg} forall(t bitcoin.Hash32, has(memPool.txs, t) && t != hash ==> registeredFrom(memPool, t, 0))
+//@   loop 1 invariant 0 <= _i1 && _i1 <= len(otherHashes) && forall(c, 0, _i1, otherHashes[c] != hash)
+
+//@ func (*MemPool).RemoveTransaction
+//@   serves C05 C14
+//@   atomic mutex
+//@   requires InvTx(memPool) && InvIn(memPool) && Distinct(memPool)
+//@   requires {reg} Reg(memPool)
+//@   ensures gone: !has(memPool.txs, hash) && !has(memPool.requests, hash) && reqSameExcept(memPool, hash) && txsSameExcept(memPool, hash)
+//@   ensures result: result == old(body(memPool, hash))
+//@   ensures {nf} nothing_new: forall(o bitcoin.Hash32, has(memPool.inputs, o) ==> forall(c, 0, len(memPool.inputs[o]), listedOld(memPool, o, memPool.inputs[o][c])))
+//@   ensures {reg} others_stay: forall(o bitcoin.Hash32, old(has(memPool.inputs, o)) ==> forall(j, 0, old(len(memPool.inputs[o])), old(memPool.inputs[o][j]) != hash ==> listed(memPool, o, old(memPool.inputs[o][j]))))
+//@   ensures inv: InvTx(memPool) && InvIn(memPool) && Distinct(memPool)
+//@   ensures {reg} reg: Reg(memPool)
+
+//@ func (*MemPool).TransactionExists
+//@   serves C05 C14
+//@   atomic mutex
+//@   requires hash != nil && InvTx(memPool)
+//@   ensures value: result == body(memPool, *hash)
+//@   ensures frame: same(memPool.txs, memPool.inputs, memPool.requests)
+
+//@ func (*MemPool).IsTrusted
+//@   serves C07 C12
+//@   atomic mutex
+//@   requires InvTx(memPool)
+//@   ensures value: result == (has(memPool.txs, txid) && memPool.txs[txid].trusted)
+//@   ensures frame: same(memPool.txs, memPool.inputs, memPool.requests) && forall(r *memPoolTx, same(r.trusted))
